@@ -71,6 +71,9 @@ def run_cases(cases, timeout=3000):
     for c, i, m in zip(cases, impl, model):
         d = parse_fields(i)
         d["case"] = c
+        if " swfc=" in m:
+            m, sw = m.rsplit(" swfc=", 1)
+            d["model_swfc"] = (sw.strip() == "1")
         d["model"] = m
         if d.get("class") == "ok":
             exp = "ok %s %s %s" % (d.get("rs"), d.get("re"), d.get("out"))
